@@ -56,7 +56,12 @@ class KeywordTask:
                        "enum": 8, "const": 6, "uniqueItems": 5, "dependencies": 4, "type": 4}.get(k, 1)
 
     def cache_key(self):
-        return "kw|%s|%s" % (self.name, self.timeout_ms)
+        from pyvc import driver
+        # the function itself, everything it may inline or call by contract (_utils, _types, the
+        # validator methods' signatures), the metaschema of the draft, the tables
+        dh = driver.dep_hash(self.root, modules=("_utils", "_types", "exceptions"), units=(self.fkey,), drafts=(self.d,))
+        th = driver.dep_hash(self.root, units=("validators:create",))
+        return "kw|%s|%s|%s|%s" % (self.name, self.timeout_ms, dh, th)
 
     def setup(self):
         repo = extract.Repo(self.root)
